@@ -135,8 +135,10 @@ def compare(prog, r):
         if len(warns) % prog.warn_count:
             return "%d 'no CASE hit' warnings, model expects a multiple of %d" % (len(warns), prog.warn_count), brief
     # warnings given outside macro/loop expansions name the ENDCASE line of exactly the constructs without a hit
-    plain = {(w["file"], w["line"]) for w in warns if re.fullmatch(r"[^\s(]+\(\d+\)(:\d+)?", w["pos"])}
-    if plain != set(prog.warn_lines):
+    # (files are compared by their base name: how much of the path a message shows is not this property's subject)
+    base = lambda f: f.rsplit("/", 1)[-1]
+    plain = {(base(w["file"]), w["line"]) for w in warns if re.fullmatch(r"[^\s(]+\(\d+\)(:\d+)?", w["pos"])}
+    if plain != {(base(f), l) for f, l in prog.warn_lines}:
         return ("'no CASE hit' warnings at %s, model expects them at %s"
                 % (sorted(plain)[:6], sorted(prog.warn_lines)[:6]), brief)
     return None
@@ -319,7 +321,9 @@ def g_cond(d, env):
     if k == "used":
         return {"k": "used", "s": d.choice(cm.USYMS + cm.USYMS + ["u1", "u3"] + cm.UNDEF), "n": int(d.bool(0.4))}
     if k == "ex":
-        return {"k": "ex", "f": d.int(0, len(cm.EXIST_FORMS) - 1), "n": int(d.bool(0.4))}
+        nf = len(cm.EXIST_FORMS)
+        # (the last three forms name the neighbour of the include files in sub/: a third of the IFEXIST leaves)
+        return {"k": "ex", "f": d.int(nf - 3, nf - 1) if d.bool(0.33) else d.int(0, nf - 1), "n": int(d.bool(0.4))}
     n = d.weighted([(1, 0), (3, 1), (4, 2), (3, 3), (2, 4)])
     args = []
     for _ in range(n):
@@ -355,9 +359,20 @@ def g_body(d, env, depth, budget):
     n = 0
     while depth <= env["maxdepth"] and budget[0] > 3 and n < 2 and d.bool(0.75 if depth == 1 else 0.45):
         el = g_construct(d, env, depth, budget)
-        if env["wrap"] and d.bool(0.1):
-            if d.bool():
-                el = {"t": "N", "b": [el]}
+        if env["wrap"] and d.bool(0.14):
+            if d.bool(0.6):
+                inner = [el]
+                if d.bool(0.6):
+                    # IFEXIST/IFNEXIST for the neighbour of the include file (or, from the main directory, for a file
+                    # that is not there): resolved relative to the file that holds the statement
+                    nf = len(cm.EXIST_FORMS)
+                    probe = {"t": "I", "c": {"k": "ex", "f": d.int(nf - 3, nf - 1), "n": int(d.bool(0.4))},
+                             "b": [g_leaf(d, env)], "ei": [], "el": [g_leaf(d, env)] if d.bool(0.6) else None}
+                    budget[0] -= 2
+                    inner = [probe, g_leaf(d, env)] + inner if d.bool() else inner + [g_leaf(d, env), probe]
+                    if d.bool(0.3):
+                        inner = [{"t": "N", "b": inner}]          # include file included from an include file
+                el = {"t": "N", "b": inner}
             else:
                 el = {"t": "R", "b": [el]}
                 for lf in cm.leaves_of([el]):
